@@ -32,7 +32,7 @@ ANCHORS = [
     "acnportal.acnsim.network.current:Current.__sub__",
     "acnportal.acnsim.network.current:Current.__mul__",
 ]
-REQUIRED = ["op:update_with_a_current_derived_from_the_registered_object", "tree:same_station_set_in_different_orders", "subset_queries_with_unsorted_or_repeated_periods", "op:accumulate_then_scale_in_place", "queries_over_thousands_of_periods", "op:add", "op:remove", "op:update", "op:update_rename", "op:register_refused", "op:register_refused_existing_id", "op:refused_add_unknown_station", "op:refused_remove_unknown_name", "op:refused_update_unknown_name", "subset_queries",
+REQUIRED = ["second_networks_judged", "currents_shared_with_a_second_network:second", "op:add_with_an_unusual_name", "op:add_without_a_name", "op:update_with_a_current_derived_from_the_registered_object", "tree:same_station_set_in_different_orders", "subset_queries_with_unsorted_or_repeated_periods", "op:accumulate_then_scale_in_place", "queries_over_thousands_of_periods", "op:add", "op:remove", "op:update", "op:update_rename", "op:register_refused", "op:register_refused_existing_id", "op:refused_add_unknown_station", "op:refused_remove_unknown_name", "op:refused_update_unknown_name", "subset_queries",
             "tree:+", "tree:-", "tree:*left", "tree:*right", "tree:scalar_multiple_as_operand", "leaf:dict",
             "leaf:list", "leaf:str", "leaf:series", "leaf:tiny_coefficient"]
 BUDGET_S = {"quick": 200, "thorough": 2400}
@@ -115,6 +115,42 @@ def run_case(case, obs):
     net = ChargingNetwork()
     for s in ids:
         net.register_evse(EVSE(s, max_rate=32), 208, angles[s])
+    # a second network of the same process (another site: some of the stations, in another order, plus one of its own); every
+    # Current that names only stations it has is handed to BOTH networks as the very same object, in either order
+    ids2 = rng.sample(ids, rng.randint(1, len(ids)))
+    if rng.random() < 0.5:
+        ids2.insert(rng.randint(0, len(ids2)), "only-here")
+    net2 = ChargingNetwork()
+    for s in ids2:
+        net2.register_evse(EVSE(s, max_rate=32), 240, 0)
+    model2 = {}
+
+    def share(c_, m_, lim_, nm_, first):
+        """hand the same Current object to the second network too (before or after the first network got it)"""
+        if not set(m_) <= set(ids2):
+            return
+        net2.add_constraint(c_, lim_, nm_)
+        model2[nm_] = (m_, lim_)
+        obs.ev("currents_shared_with_a_second_network:" + ("first" if first else "second"))
+
+    def check2():
+        names2 = list(net2.constraint_index)
+        if sorted(names2) != sorted(model2):
+            obs.violate("constraint_names", f"second network sharing the Current objects: index {names2} expected {sorted(model2)}", stations=ids2)
+            return
+        if not names2:
+            return
+        cm_ = np.array(net2.constraint_matrix, dtype=float)
+        mg_ = np.asarray(net2.magnitudes, dtype=float)
+        for i_, nm_ in enumerate(names2):
+            co_, lim_ = model2[nm_]
+            exp_ = [co_.get(s_, 0.0) for s_ in net2.station_ids]
+            if cm_.shape != (len(names2), len(ids2)) or not np.allclose(cm_[i_], exp_, rtol=1e-12, atol=1e-15) or mg_[i_] != lim_:
+                obs.violate("matrix_row", f"second network sharing the Current objects: row {nm_} = {cm_[i_].tolist() if cm_.ndim == 2 else cm_} limit "
+                            f"{mg_[i_]!r}, expected {exp_} limit {lim_!r}", name=nm_, stations=ids2)
+                return
+        obs.ev("second_networks_judged")
+
     model = {}   # name -> (coeffs, limit)
     order = []   # names in the order the network should list them
     log = []
@@ -220,10 +256,34 @@ def run_case(case, obs):
                 obs.violate("current_algebra_returned_non_current", f"expression evaluated to {type(c).__name__}", ops=log[-6:])
                 return
             nm = f"k{cnt}"
+            if rng.random() < 0.1:
+                # names that are legal strings but unusual: empty, blank, numeric-looking, spelled like the library's own
+                # automatic names or like its suffix for repeated names
+                alt = rng.choice(["", " ", "0", "_const_0", f"_const_{len(order)}", f"k{max(cnt - 1, 0)}_v2", "\u00e9", "None", "k 1"])
+                if alt not in model:
+                    nm = alt
+                    obs.ev("op:add_with_an_unusual_name")
             cnt += 1
             lim = round(rng.uniform(5, 100), 4)
             log.append(["add", nm, m, lim])
-            net.add_constraint(c, lim, nm)
+            first2 = rng.random() < 0.5
+            noname = rng.random() < 0.05
+            if first2 and not noname and nm not in model2:
+                share(c, m, lim, nm, True)
+            if noname:
+                # no name given: the library picks one; read back, it must be a new one
+                net.add_constraint(c, lim)
+                new = [x for x in net.constraint_index if x not in model]
+                if len(new) != 1:
+                    obs.violate("constraint_names", f"add_constraint without a name: index {list(net.constraint_index)}, known {sorted(model)}", ops=log[-6:])
+                    return
+                obs.ev("op:add_without_a_name")
+                nm = new[0]
+                log[-1][1] = nm
+            else:
+                net.add_constraint(c, lim, nm)
+            if not first2 and not noname and nm not in model2:
+                share(c, m, lim, nm, False)
             model[nm] = (m, lim)
             objs[nm] = (c, m)
             order.append(nm)
@@ -408,6 +468,7 @@ def run_case(case, obs):
     obs.evals = nops
     if nops >= 3 and had_rm_upd and stats["binary"] >= 1 and len(stats["subsets"]) >= 2:
         obs.nontrivial()
+    check2()
     obs.sample = {"stations": ids, "ops": log[:6], "final_names": order}
 
 
